@@ -1,9 +1,47 @@
 import Driver.Util
+import Driver.C01
+import Driver.C02
+import Driver.C03
+import Driver.C04
+import Driver.C05
+import Driver.C06
+import Driver.C07
+import Driver.C08
 import Driver.C09
+import Driver.C10
+import Driver.C11
+import Driver.C12
+import Driver.C13
+import Driver.C14
+import Driver.C15
+import Driver.C16
+import Driver.C17
+import Driver.C18
+import Driver.C19
+import Driver.C20
 
 def main (args : List String) : IO UInt32 := do
   let i ← IO.getStdin
   let o ← IO.getStdout
   match args with
-  | ["C09"] => Util.loop Driver.C09.step i o (); return 0
+  | ["C01"] => Util.loop Driver.C01.step i o Driver.C01.init; return 0
+  | ["C02"] => Util.loop Driver.C02.step i o Driver.C02.init; return 0
+  | ["C03"] => Util.loop Driver.C03.step i o Driver.C03.init; return 0
+  | ["C04"] => Util.loop Driver.C04.step i o Driver.C04.init; return 0
+  | ["C05"] => Util.loop Driver.C05.step i o Driver.C05.init; return 0
+  | ["C06"] => Util.loop Driver.C06.step i o Driver.C06.init; return 0
+  | ["C07"] => Util.loop Driver.C07.step i o Driver.C07.init; return 0
+  | ["C08"] => Util.loop Driver.C08.step i o Driver.C08.init; return 0
+  | ["C09"] => Util.loop Driver.C09.step i o Driver.C09.init; return 0
+  | ["C10"] => Util.loop Driver.C10.step i o Driver.C10.init; return 0
+  | ["C11"] => Util.loop Driver.C11.step i o Driver.C11.init; return 0
+  | ["C12"] => Util.loop Driver.C12.step i o Driver.C12.init; return 0
+  | ["C13"] => Util.loop Driver.C13.step i o Driver.C13.init; return 0
+  | ["C14"] => Util.loop Driver.C14.step i o Driver.C14.init; return 0
+  | ["C15"] => Util.loop Driver.C15.step i o Driver.C15.init; return 0
+  | ["C16"] => Util.loop Driver.C16.step i o Driver.C16.init; return 0
+  | ["C17"] => Util.loop Driver.C17.step i o Driver.C17.init; return 0
+  | ["C18"] => Util.loop Driver.C18.step i o Driver.C18.init; return 0
+  | ["C19"] => Util.loop Driver.C19.step i o Driver.C19.init; return 0
+  | ["C20"] => Util.loop Driver.C20.step i o Driver.C20.init; return 0
   | _ => IO.eprintln "usage: vdrv <property>"; return 2
